@@ -5,6 +5,7 @@ import json, os, subprocess, sys, glob, time
 def sh(cmd, cwd=None, timeout=1800):
     r=subprocess.run(cmd, shell=True, cwd=cwd, capture_output=True, text=True, timeout=timeout)
     return r.returncode, r.stdout+r.stderr
+REPO=os.environ.get("SEED_REPO","/repo")  # a scratch worktree may be used for long sweeps; the registered way is /repo itself
 ids=sys.argv[1:] or sorted(os.path.basename(p) for p in glob.glob("/verif/seeded/*"))
 claimed={c["property_id"] for c in json.load(open("/verif/MANIFEST.json"))["checks"]}
 extra=set(os.environ.get("EXTRA_PROPS","").split(","))
@@ -14,15 +15,15 @@ for sid in ids:
     meta=json.load(open(d+"/meta.json")); prop=meta["property"]
     if prop not in claimed and prop not in extra:
         print(f"{sid}: property {prop} not claimed - skipped"); continue
-    rc,out=sh("git status --porcelain", "/repo"); assert out.strip()=="", "repo not clean: "+out
-    rc,out=sh(f"git apply {d}/patch.diff", "/repo"); assert rc==0, out
+    rc,out=sh("git status --porcelain", REPO); assert out.strip()=="", "repo not clean: "+out
+    rc,out=sh(f"git apply {d}/patch.diff", REPO); assert rc==0, out
     t=time.time()
     try:
-        rc,out=sh(f"./check --no-evidence {prop}", "/verif")
+        rc,out=sh(f"./check --no-evidence --repo {REPO} {prop}", "/verif")
     finally:
-        sh("git checkout -- .", "/repo")
+        sh("git checkout -- .", REPO)
     viol=[l for l in out.splitlines() if l.startswith("VIOLATION")]
     confirmed=[l for l in viol if "no-failing-input-found" not in l]
     res[sid]={"property":prop,"exit":rc,"violations":len(viol),"with_replayed_input":len(confirmed),"first":(viol[0][:300] if viol else ""),"s":round(time.time()-t,1)}
     print(sid, json.dumps(res[sid])[:420], flush=True)
-json.dump(res,open("/verif/out/seeded_results.json","w"),indent=1)
+json.dump(res,open(os.environ.get("SEED_OUT","/verif/out/seeded_results.json"),"w"),indent=1)
